@@ -2,6 +2,7 @@
 //! (SyncFlag is in c10_flag.rs.)
 //@ file-needs: blk
 //@ file-inject: src/sync/semphore.rs
+//@ file-mirror: src/sync/semphore.rs :: pub fn post(&self) { let cnt = self.cnt.fetch_add(1, Ordering::SeqCst); assert!(cnt < isize::MAX); // try to wakeup one waiter first if cnt < 0 { self.wakeup_one(); } }
 //@ file-property: C10
 use super::*;
 use crate::coroutine_impl::vk_support as sup;
